@@ -215,7 +215,21 @@ def make_instance(st, cls, owner, mode="live", bk=False, opts=None):
         if cls == "Index":
             shape_uniform_list(st, o, "values", n, classes_only=True)
     elif cls == "Bag":
-        raise core.Unsupported("Bag schema")
+        rng = z3.Const(p + ".range", core.StrS)
+        # wf (restriction, stated in evidence): scalar ranges "S" (strings) and "N" (numbers) only
+        st.add(z3.Or(rng == core.strlit("S"), rng == core.strlit("N")))
+        f["range"] = VStr(rng)
+        f["dimension"] = core.VInt(0)
+        dom = z3.Function(f"dom.values{o}", core.Key, z3.BoolSort())
+        wfun = z3.Function(f"weight.values{o}", core.Key, z3.RealSort())
+        n = z3.Int(f"len.values{o}")
+        st.add(n >= 0)
+        k = z3.Const(f"wf.values{o}.k", core.Key)
+        st.forall(k, dom(k), z3.And(wfun(k) > 0, n > 0), name="wf-bag-weights")
+        w = z3.Const(f"wf.values{o}.some", core.Key)
+        st.add(z3.Implies(n > 0, dom(w)))
+        st.forall(k, dom(k), z3.If(rng == core.strlit("S"), core.Key.is_KStr(k), z3.Or(core.Key.is_KReal(k), core.Key.is_KPInf(k), core.Key.is_KNInf(k), k == core.KStr(core.strlit("nan")))), name="wf-bag-keys")
+        f["values"] = st.alloc(LDict(lambda x: dom(x), lambda x: VFl(Fl.fin(wfun(x))), n, keykind="bag"), new=False)
     else:
         raise core.Unsupported(f"schema for {cls}")
     return st.alloc(Inst(cls, f), new=False)
